@@ -5957,7 +5957,7 @@ class Query(object):
         return bool(objects)
     @cut_traceback
     def delete(query, bulk=None):
-        if not bulk:
+        if not bulk or query._translator.limit is not None or query._translator.offset is not None:
             if not isinstance(query._translator.expr_type, EntityMeta):
                 throw(TypeError, 'Delete query should be applied to a single entity. Got: %s'
                                  % ast2src(query._translator.tree.elt))
